@@ -25,9 +25,12 @@ from .dc_validators import (
 
 def check_extensions(inst: "MdParserConfig", field: dc.Field, value: Any) -> None:
     """Check that the extensions are a list of known strings"""
-    if not isinstance(value, Iterable):
-        raise TypeError(f"'{field.name}' not iterable: {value}")
-    diff = set(value).difference(
+    # a string or a mapping is iterable too (`{"dollarmath": False}` would enable it)
+    if isinstance(value, str | bytes | dict) or not isinstance(value, Iterable):
+        raise TypeError(f"'{field.name}' is not a list of strings: {value!r}")
+    # read the value once only: a generator or `filter` object is empty afterwards
+    value = set(value)
+    diff = value.difference(
         [
             "amsmath",
             "attrs_image",
@@ -51,7 +54,7 @@ def check_extensions(inst: "MdParserConfig", field: dc.Field, value: Any) -> Non
         # sorted, as the order of a set differs from process to process
         unknown = sorted(diff, key=repr)
         raise ValueError(f"'{field.name}' items not recognised: {unknown}")
-    setattr(inst, field.name, set(value))
+    setattr(inst, field.name, value)
 
 
 class UrlSchemeType(TypedDict, total=False):
